@@ -310,10 +310,28 @@ func genHistory(r *core.Rand, n int, mixed bool) (string, bool) {
 // genBlocks: block-heavy history with tiny files, prune, corruption, crash.
 func genBlocks(r *core.Rand) (string, bool) {
 	g := newDbGen(r, int(r.Pick(60, 100, 200)))
+	// boundary stream: blocks that end exactly at / one below / one above the
+	// file size limit (alone, or as the second block of the file)
+	edge := []int{}
+	if r.Chance(2, 3) {
+		d := int(r.Pick(0, 0, -1, 1))
+		if r.Chance(1, 2) {
+			edge = append(edge, g.maxFile-12+d)
+		} else {
+			n1 := 1 + r.Intn(g.maxFile-30)
+			edge = append(edge, n1, g.maxFile-(n1+12)-12+d)
+		}
+	}
 	for tx := 2 + r.Intn(4); tx > 0; tx-- {
 		g.begin()
 		for b := 1 + r.Intn(4); b > 0; b-- {
 			id, n := g.nextBlk, 1+r.Intn(150)
+			if len(edge) > 0 {
+				n, edge = edge[0], edge[1:]
+				if n < 1 {
+					n = 1
+				}
+			}
 			g.nextBlk++
 			g.blocks = append(g.blocks, id)
 			g.blkLen[id] = n
